@@ -32,6 +32,7 @@ import vlib
 from vlib import lean_list, lean_str
 
 ID = "C12"
+OWN_LEANCHECKER = True  # this module runs leanchecker itself in the thorough tier
 LEAN_MODULES = ["FaxVerif.C12.Theorems"]
 LEAN_SOURCES = ["FaxVerif/C12", "FaxVerif/Generated/C12Table.lean"]
 DRIVER = "FaxVerif/C12/Driver.lean"
